@@ -23,13 +23,21 @@ func vp_C20_expiry() {
 	want := gap < op.Duration
 	// (fixed: KF-C20-1 - the comparison used the second within the minute and broke across minute boundaries)
 	vpAssert("expiry", got == want)
+	// an expired token cannot be revived by its holder appending a more generous time caveat
+	if mac, derr := deSerializeMacaroon(tok); derr == nil && mac.AddFirstPartyCaveat([]byte(TimePrefix+"99999999999")) == nil {
+		if tok2, serr := serializeMacaroon(mac); serr == nil {
+			vpSleep(0)
+			vpAssert("appended-time-caveat-does-not-extend-the-lifetime", ValidateToken(op, tok2) != nil)
+		}
+	}
 	vpReach("valid", got)
 	vpReach("expired", !got)
 }
 
 // vp:check C20 both K=16 timeout=900 clock=fixed
 // vp_C20_binding: within its lifetime a token validates only for the issuing secret and user; GetUserFromToken reveals
-// the user; a token with an added caveat, or minted under another key, is refused; garbage does not parse.
+// the user; a token with an added caveat (of any kind, appended by its holder), or minted under another key, is
+// refused for everybody; garbage does not parse.
 func vp_C20_binding() {
 	secret := []byte("secret-key-0001")
 	user := "@" + vpNondetStringN("user", 1) + ":x"
@@ -58,14 +66,14 @@ func vp_C20_binding() {
 	vpAssume(err == nil)
 	vpSleep(0)
 	err2 := ValidateToken(op, tok2)
-	wellFormedKnown := extra == "gen = 1" || extra == "time < 99999999999" || extra == UserPrefix+"@z:x"
-	if !wellFormedKnown {
-		// anything that is not exactly one of the three caveat forms is an unknown caveat
-		vpAssert("unknown-caveat-refused", err2 != nil)
-	} else if extra == UserPrefix+"@z:x" {
-		vpAssert("foreign-user-caveat-harmless-or-refused", true)
-	}
-	vpObserve("extra-caveat-verdict", err2)
+	// any additional caveat - unknown, malformed, or a well-formed duplicate of a known kind - makes the token invalid
+	// (fixed: KF-C20-2 - the three caveat kinds were treated as alternatives, so an appended "user_id = <other>" made the
+	// token validate for that other user and an appended far-future "time <" caveat revived an expired token)
+	vpAssert("additional-caveat-refused", err2 != nil)
+	asZ := op
+	asZ.UserID = "@z:x"
+	vpSleep(0)
+	vpAssert("appended-user-caveat-does-not-transfer-the-token", ValidateToken(asZ, tok2) != nil)
 	vpSleep(0)
 	vpAssert("garbage-refused", ValidateToken(op, "AAAA") != nil)
 	vpReach("done", true)
